@@ -48,12 +48,12 @@ theorem C16_failure_delivered_and_closed (r p : Bool) (is : List In)
 
 /-- A stream error of ANY kind (also unknown kinds) is delivered and closes the connection. -/
 theorem C16_stream_error_delivered_and_closed (r p : Bool) (is : List In) (k : ErrKind)
-    (hc : (run { reconnectOpt := r, passive := p } is).1.nstate = .connected)
-    (hr : (run { reconnectOpt := r, passive := p } is).1.unknownErrRaises = false) :
+    (hc : (run { reconnectOpt := r, passive := p } is).1.nstate = .connected) :
     let s := (run { reconnectOpt := r, passive := p } is).1
     ∃ d, s.cur = some d ∧ (step s (.streamError k)).2 = [.entityStreamError k, .closed d, .downNear] ∧
       (step s (.streamError k)).1.connected = false :=
-  let ⟨d, a, b, c, _⟩ := stream_error_closes _ (C16_invariant r p is) hc k hr
+  let ⟨d, a, b, c, _⟩ := stream_error_closes _ (C16_invariant r p is) hc k
+    (run_unknownErrRaises { reconnectOpt := r, passive := p } is)
   ⟨d, a, b, c⟩
 
 /-- The application is reconnected automatically after a stream error unless it was a sign-in conflict or
@@ -62,14 +62,14 @@ theorem C16_stream_error_delivered_and_closed (r p : Bool) (is : List In) (k : E
     the keep-alive is stopped. -/
 theorem C16_stream_error_reconnect_policy (r p : Bool) (is : List In) (k : ErrKind)
     (hc : (run { reconnectOpt := r, passive := p } is).1.nstate = .connected)
-    (hr : (run { reconnectOpt := r, passive := p } is).1.unknownErrRaises = false)
     (hp : (run { reconnectOpt := r, passive := p } is).1.pendingDown = 0)
     (hf : (run { reconnectOpt := r, passive := p } is).1.reconnectFlag = false) :
     let s := (run { reconnectOpt := r, passive := p } is).1
     let s2 := (step (step s (.streamError k)).1 .loop)
     s2.2 = (if s.reconnectOpt && k != .conflict then [.downAll, .created s.disps.length] else [.downAll]) ∧
     s2.1.noiseFresh = true ∧ s2.1.pingThread = false :=
-  reconnect_policy _ (C16_invariant r p is) hc k hr hp hf
+  reconnect_policy _ (C16_invariant r p is) hc k
+    (run_unknownErrRaises { reconnectOpt := r, passive := p } is) hp hf
 
 /-- Keep-alive: never closes while every ping is answered before the next one is due … -/
 theorem C16_ping_answered_never_closes (r p : Bool) (is : List In)
